@@ -21,11 +21,29 @@ structure DecCfg where
   consStr : List Nat := allStrKinds   -- string kinds whose decoder has supportConstructedForm
 deriving Repr, Inhabited
 
-/-- reassembly of a constructed string: every fragment a primitive element with universal tag `num` -/
+mutual
+/-- one fragment of a constructed string: a primitive element with universal tag `num`, or
+    (X.690 8.7.3) a constructed one holding further fragments -/
+def decSegment (num : Nat) : TLV → Res Bytes
+  | .prim _ tg c => if tg.cls = .universal ∧ tg.num = num then .ok c else .error .malformed
+  | .cons _ tg _ cs =>
+    if tg.cls = .universal ∧ tg.num = num then (decSegments num cs).map List.flatten
+    else .error .malformed
+/-- reassembly of a constructed string -/
 def decSegments (num : Nat) : List TLV → Res (List Bytes)
   | [] => .ok []
+  | t :: rest =>
+    match decSegment num t with
+    | .error e => .error e
+    | .ok c => (decSegments num rest).map (c :: ·)
+end
+
+/-- BIT STRING fragments must be primitive in the model (nested constructed BIT STRING fragments
+    are outside what the code reassembles correctly) -/
+def decBitSegments : List TLV → Res (List Bytes)
+  | [] => .ok []
   | .prim _ tg c :: rest =>
-    if tg.cls = .universal ∧ tg.num = num then (decSegments num rest).map (c :: ·)
+    if tg.cls = .universal ∧ tg.num = 3 then (decBitSegments rest).map (c :: ·)
     else .error .malformed
   | .cons .. :: _ => .error .malformed
 
@@ -53,7 +71,7 @@ def decPrim (cfg : DecCfg) : PrimTy → TLV → Res Val
   | .bitString, .prim _ _ c => (bitsFromContent c).map .bits
   | .bitString, .cons _ _ _ cs =>
     if cfg.consBits then
-      (match decSegments 3 cs with
+      (match decBitSegments cs with
        | .error e => .error e
        | .ok frags => (concatBitFrags frags).map .bits)
     else .error .malformed
